@@ -81,3 +81,27 @@ def kf_child_root(f):
     base = {"div": "/x/y/", "div-trailing": "/x/", "div-empty": "/", "joinpath-splits": "/x/", "joinpath-encoded": "/x/"}[f["entry"]]
     merged = base + "/".join(f["case"]["segs"])
     return _climbs_above_root_then_empty(merged) and (f["observed"] == (_child_model_popping_root(merged) or "/"))
+
+
+_HOST_DERIVED = {"raw_host", "host", "host_subcomponent", "host_port_subcomponent", "authority", "human_repr", "origin"}
+
+
+@recogniser("KF-EMPTY-HOST-EAGER", "C09", "C08")
+def kf_empty_host_eager(f):
+    """the auto-encoding constructor pre-fills raw_host='' for an authority whose host is empty, the lazy derivation
+    (after pickling/copying) gives None; only host-derived accessors differ"""
+    obs = f["observed"]
+    if not isinstance(obs, dict) or "fields" not in obs:
+        return False
+    if obs.get("route") != "str":
+        return False
+    fields = obs["fields"]
+    if not set(fields) <= _HOST_DERIVED or "raw_host" not in fields:
+        return False
+    a, b = fields["raw_host"]
+    if tuple(a) != ("ok", "") or tuple(b) != ("ok", None):
+        return False
+    auth = obs.get("raw_authority", None)
+    if auth is None:
+        return False
+    return auth == "" or ref.split_authority(auth)[2] is None
